@@ -1494,6 +1494,15 @@ def concatenate(
                         start = stop
                     break
 
+            for content in contents:
+                if isinstance(
+                    content, (ak.partition.PartitionedArray, ak.layout.Content)
+                ) and len(content) != start:
+                    raise ValueError(
+                        "all arrays must have the same length for concatenate "
+                        "in axis > 0" + ak._util.exception_suffix(__file__)
+                    )
+
             partitions = []
             offsets = [0]
             for slc in slices:
